@@ -44,7 +44,15 @@ static std::string opPca(Args& A){
 	for(std::size_t i = 0; i < mEff; ++i) for(std::size_t j = 0; j < n; ++j) if(!std::isfinite(V(j, i))) finite = false;
 	if(!finite) o.fail("pca-nonfinite-direction");
 	else{
+		// a direction without variance may be returned as the zero vector (small-sample branch);
+		// all others must be orthonormal
+		std::vector<bool> zeroDir(mEff, true);
+		for(std::size_t a = 0; a < mEff; ++a){
+			for(std::size_t j = 0; j < n; ++j) if(V(j, a) != 0.0) zeroDir[a] = false;
+			if(zeroDir[a] && !(std::fabs(ev(a)) <= 1e-9 * (1 + top))) o.fail("pca-zero-direction-with-variance");
+		}
 		for(std::size_t a = 0; a < mEff; ++a) for(std::size_t b = 0; b < mEff; ++b){
+			if(zeroDir[a] || zeroDir[b]) continue;
 			double s = 0; for(std::size_t j = 0; j < n; ++j) s += V(j, a) * V(j, b);
 			if(!(std::fabs(s - (a == b ? 1.0 : 0.0)) <= 1e-8)) o.fail("pca-not-orthonormal");
 		}
